@@ -259,7 +259,83 @@ fn budget(tier: Tier) -> Budget {
     }
 }
 
+/// The same fault sweep on an `app::rns_plain` wrapper object.
+fn rnsp_run(i: usize, run_seed: u64, b: &Budget) -> RunOut {
+    use crate::rnsp::{self, RScn};
+    let mut out = RunOut::default();
+    let mut log = LogHash::new();
+    let mut rng = Prng::new(run_seed).fork("rnsp");
+    let kind = rnsp::KINDS[(i / 24 + rng.usize_below(2)) % rnsp::KINDS.len()].to_string();
+    let mut got = None;
+    for attempt in 0..10 {
+        let Some(specs) = rnsp::draw_specs(&mut rng) else { continue };
+        let scn = RScn { specs, ent: prng::mix(run_seed, 3, attempt), kind: kind.clone(), obj_seed: prng::mix(run_seed, 4, attempt) };
+        if let Ok(m) = rnsp::materialise(&scn) {
+            got = Some((scn, m));
+            break;
+        }
+    }
+    let Some((scn, m)) = got else {
+        out.degenerate = true;
+        return out;
+    };
+    out.count(&format!("objects.{}", m.obj.name()), 1);
+    log.bytes(&m.enc);
+    let mut frng = Prng::new(run_seed).fork("rnsp-io");
+    let oclass = m.obj.class();
+    let mut evals = 0u64;
+    let mut judge = |ser: bool, script: Script, out: &mut RunOut, log: &mut LogHash| {
+        let (bad, fired, kind_s) = rnsp::fault_case(&m, ser, &script);
+        evals += 1;
+        log.str(kind_s);
+        log.u64(fired.calls as u64);
+        out.count(&format!("result.{}.{}", if ser { "ser" } else { "de" }, kind_s), 1);
+        out.count("fired.short", fired.short as u64);
+        out.count("fired.interrupted", fired.interrupted as u64);
+        out.count("fired.zero_write", fired.zero as u64);
+        out.count("fired.hard_error", fired.hard_error as u64);
+        out.count("fired.eof", fired.eof as u64);
+        out.count("io_calls", fired.calls as u64);
+        let side = if ser { Side::Ser } else { Side::De };
+        if fired.hard_error + fired.eof + fired.short + fired.interrupted + fired.zero > 0 {
+            let off = script.eof_at.or(script.fail_at).unwrap_or(0);
+            out.distinct.push(util::h64(format!("{}|{}|{}|{}", oclass, side.name(), fault_kind(&script, side), offset_class(off)).as_bytes()));
+        }
+        if let Some((class, detail)) = bad {
+            out.violations.push(Violation {
+                key: format!("{}/{}/{}", side.name(), class, m.obj.name()),
+                class: class.clone(),
+                detail: format!("{} of {} ({} bytes) under {} [{}]: {}", if ser { "serialization" } else { "deserialization" }, oclass, m.enc.len(), fault_kind(&script, side), script.to_json(), detail),
+                replay: json!({"rnsp_scenario": scn.to_json(), "side": side.name(), "script": script.to_json(), "encoding_hash": util::h64(&m.enc)}),
+            });
+        }
+    };
+    for k in offsets(m.consumed, b.offset_cap, &mut frng) {
+        let mut s = if frng.coin() { Script::clean() } else { Script::draw(&mut frng, false) };
+        s.eof_at = Some(k);
+        judge(false, s, &mut out, &mut log);
+        let mut s = if frng.coin() { Script::clean() } else { Script::draw(&mut frng, false) };
+        s.fail_at = Some(k);
+        judge(false, s, &mut out, &mut log);
+    }
+    for k in offsets(m.enc.len(), b.offset_cap, &mut frng) {
+        let mut s = if frng.coin() { Script::clean() } else { Script::draw(&mut frng, true) };
+        s.fail_at = Some(k);
+        judge(true, s, &mut out, &mut log);
+    }
+    for _ in 0..b.scripts {
+        judge(true, Script::draw(&mut frng, true), &mut out, &mut log);
+        judge(false, Script::draw(&mut frng, false), &mut out, &mut log);
+    }
+    out.count("evaluations", evals);
+    out.log_hash = log.finish();
+    out
+}
+
 fn one_run(i: usize, run_seed: u64, b: &Budget) -> RunOut {
+    if i % 24 == 11 {
+        return rnsp_run(i, run_seed, b);
+    }
     let mut out = RunOut::default();
     let mut log = LogHash::new();
     let root = Prng::new(run_seed);
@@ -407,6 +483,9 @@ fn parse_replay(r: &Value) -> Option<(Scn, Side, Script, u64)> {
 /// Shrink: drop the fragmentation steps if the class persists, then move the fault to the
 /// smallest offset with the same class.
 fn minimise(v: &Violation) -> Violation {
+    if !v.replay["rnsp_scenario"].is_null() {
+        return v.clone();
+    }
     let Some((scn, side, script, _)) = parse_replay(&v.replay) else { return v.clone() };
     let Ok(m) = materialise(&scn) else { return v.clone() };
     let same = |s: &Script| -> Option<String> {
@@ -462,6 +541,36 @@ fn minimise(v: &Violation) -> Violation {
 }
 
 pub fn replay(doc: &Value) -> i32 {
+    if !doc["replay"]["rnsp_scenario"].is_null() {
+        let r = &doc["replay"];
+        let (Some(scn), Some(script)) = (crate::rnsp::RScn::from_json(&r["rnsp_scenario"]), Script::from_json(&r["script"])) else {
+            eprintln!("replay file malformed");
+            return 2;
+        };
+        let m = match crate::rnsp::materialise(&scn) {
+            Ok(m) => m,
+            Err(e) => {
+                eprintln!("replay diverged: {}", e);
+                return 2;
+            }
+        };
+        if Some(util::h64(&m.enc)) != r["encoding_hash"].as_u64() {
+            eprintln!("replay diverged: regenerated object encodes differently from the recorded one");
+            return 2;
+        }
+        let (bad, _, kind) = crate::rnsp::fault_case(&m, r["side"].as_str() == Some("ser"), &script);
+        return match bad {
+            Some((class, detail)) => {
+                println!("VIOLATION property={} replay={}", PROP, doc["__path"].as_str().unwrap_or("?"));
+                println!("  class={} {}", class, detail);
+                1
+            }
+            None => {
+                println!("{} replay: property held on this case (result {})", PROP, kind);
+                0
+            }
+        };
+    }
     let Some((scn, side, script, want_hash)) = parse_replay(&doc["replay"]) else {
         eprintln!("replay file malformed");
         return 2;
